@@ -765,6 +765,7 @@ def build_hist_case(data):
     nsteps = src.int(3, 8)
     groups = sorted({g for _, g in wells})
     mode, status, defstep, clean, seen = {}, {}, {}, {}, []
+    locked = set()
     steps = []
 
     def summary():
@@ -783,10 +784,19 @@ def build_hist_case(data):
     def define(q):
         tk = q[0]
         shape = "S" if tk == "F" else src.choice([tk, tk, tk, "S"])
-        # may read the other quantities introduced so far (not itself, and no group quantities: ASSIGN of those is a
-        # recorded finding)
-        refs = [x for x in seen if x != q and x[0] in "FW"]
-        return ["DEFINE", q, GB(src, tk, refs).gen(shape, src.int(0, 2))]
+        # may read quantities introduced BEFORE this one (not itself, and no group quantities: ASSIGN of those is a
+        # recorded finding).  A quantity that is read by another one is not DEFINEd again afterwards: the statement does
+        # not say whether a re-DEFINE keeps a quantity's place in the evaluation order, and with these two rules the
+        # reader is evaluated after what it reads under either interpretation.
+        if q in locked:
+            return ["UPDATE", q, "ON"] if mode.get(q) == "D" else assign(q, True)
+        refs = [x for x in seen if x != q and x[0] in "FW" and (q not in seen or seen.index(x) < seen.index(q))]
+        ast = GB(src, tk, refs).gen(shape, src.int(0, 2))
+        txt = json.dumps(ast)
+        for x in refs:
+            if '"%s"' % x in txt:
+                locked.add(x)
+        return ["DEFINE", q, ast]
 
     def assign(q, full):
         v = src.choice(["1", "2.5", "-3", "7", "0.25", "12", "0"])
@@ -913,8 +923,9 @@ class C17(Check):
         "SORTD / DEF / IDV / UNDEF of set-free arguments (not generated), group wildcards (not generated), "
         "well sets and group sets in one expression (not generated), segment/region/table-lookup operands, "
         "RANDN/RANDU/RRNDN/RRNDU",
-        "part B: DEFINE expressions refer to summary vectors only (no references between UDQs: the evaluation order of "
-        "re-defined quantities is not stated); UPDATE OFF/NEXT only for quantities DEFINEd at an earlier step; a "
+        "part B: a DEFINE may read summary vectors and the quantities introduced before its own (which are then not "
+        "DEFINEd again: whether a re-DEFINE keeps its place in the evaluation order is not stated; with both rules the "
+        "reader is evaluated after what it reads under either reading); UPDATE OFF/NEXT only for quantities DEFINEd at an earlier step; a "
         "re-DEFINE of a switched-off quantity is followed by an explicit UPDATE ON; a partial ASSIGN is generated "
         "only while 'replace the selected elements' and 'replay all ASSIGN records' mean the same",
         "a reduction whose argument has no defined element at evaluation time has no value defined by the "
